@@ -183,7 +183,7 @@ def run_checks(args):
         for prop in props:
             env = {**os.environ, "PVC_REPO": tmp, "PVC_EVIDENCE_DIR": os.path.join(tmp, "evidence"), "PVC_CANARY": "0", "PTERA_VERIF": "1"}
             try:
-                r = subprocess.run([os.path.join(ROOT, ".venv/bin/python"), "-m", "pvc.driver", prop, "quick"], cwd=ROOT, env=env, capture_output=True, text=True, timeout=900)
+                r = subprocess.run(["/verif/.venv/bin/python", "-m", "pvc.driver", prop, "quick"], cwd=ROOT, env=env, capture_output=True, text=True, timeout=900)
             except subprocess.TimeoutExpired:
                 res[prop] = "timeout"
                 continue
